@@ -68,15 +68,18 @@ CHECKS["C06"] = dict(
 )
 CHECKS["C12"] = dict(
     category="other",
-    technique="MIR dataflow/dominance rules on variations::instance (tag provenance through the filter closure, predicate reading, must-dominate), call-graph SCC depth-guard rule",
+    technique="MIR dataflow/dominance rules on variations::instance (tag provenance through the filter closure, predicate reading, must-dominate), call-graph SCC depth-guard rule; decision-list reading of the region scalar function (forward path walk of MIR, exact rational evaluation of path conditions and result terms on a finite grid against the specification's function)",
     text=("Static decision of the clause 'a successful instance is a static font': no add_table of a variation tag (constant tags "
           "checked, dynamic tags must pass a filter that rejects is_var_table tags; the predicate itself is read and must match all "
           "seven variation tags), the CFF2 variation store is cleared before writing, the result comes from the single sfnt producer, "
           "the bounding-box recursion is depth-bounded, and tables that declare a record size (MVAR, fvar) are read with that size as the "
           "array stride; per-iteration scratch buffers are reset inside their loop; delta and point iterators are zipped without skip/step "
           "adaptors; the X and Y deltas of a gvar tuple are read as one packed stream of 2n deltas; the readers of HVAR, ItemVariationStore, fvar, gvar, MVAR, "
-          "avar, STAT and cvar follow the specification's record layouts; each MVAR value tag varies the field the specification assigns to it. "
-          "All numeric clauses of the variation model are not decided."),
+          "avar, STAT and cvar follow the specification's record layouts; each MVAR value tag varies the field the specification assigns to it; "
+          "the per-axis region scalar (calculate_scalar), read from MIR as a decision list and evaluated in exact rational arithmetic on a grid that "
+          "contains every ordering and tie of instance, start, peak and end, equals the specification's tent function, and the implied region of a tuple "
+          "without intermediate coordinates is min(peak, 0) ..= max(peak, 0) (R12-TENT). "
+          "Delta accumulation, IUP interpolation, phantom points, HVAR/MVAR application and rounding are not decided."),
     design_ref="DESIGN.md section 6, C12",
 )
 
@@ -107,11 +110,13 @@ CHECKS["C10"] = dict(
 )
 CHECKS["C13"] = dict(
     category="other",
-    technique="MIR dominance rule for the length test, reaching-definitions must-pass-through of clamp(-1,1) on the pushed value, provenance of clamp bounds, guarded-divisor rule, ADT field visibility and constructor audit",
+    technique="MIR dominance rule for the length test, reaching-definitions must-pass-through of clamp(-1,1) on the pushed value, provenance of clamp bounds, guarded-divisor rule, ADT field visibility and constructor audit; decision-list reading of default_normalize (forward path walk, exact rational evaluation on a finite grid against the specification's function)",
     text=("Static decision of the structural clauses of C13: wrong-length tuples are rejected before anything is produced, every value pushed to "
           "the result is the direct result of clamp(-1, 1) on the 16.16 value, the default coordinate maps to the constant 0 and divisions happen only "
           "under a strict comparison with the default, the avar segment map compares only with table data, 16.16 products and quotients are formed in 64 bits, the font-supplied clamp bounds are ordered by construction, fixed-point division guards a "
-          "zero divisor, and tuples cannot be forged. The numeric clauses (exact -1/0/+1, accuracy, monotonicity) are not decided."),
+          "zero divisor, and tuples cannot be forged; default_normalize, read from MIR as a decision list over the coordinate and the axis minimum, default and maximum and "
+          "evaluated in exact rational arithmetic on a grid with every ordering and tie of the four (degenerate axes and out-of-range coordinates included), equals the "
+          "specification's default normalisation (T13-NORM). Fixed-point rounding (one-unit accuracy) and the avar interpolation arithmetic are not decided."),
     design_ref="DESIGN.md section 6, C13",
 )
 CHECKS["C16"] = dict(
